@@ -37,7 +37,7 @@ End Assoc.
 (* frame: evaluation never touches registrations, explicit values or the class of objects, and (with the
    repaired semantics) leaves every cycle flag as it found it *)
 Definition frame (a b : state) : Prop :=
-  stores b = stores a /\ impls b = impls a /\ dict b = dict a /\ ocls b = ocls a /\ cyc b = cyc a.
+  stores b = stores a /\ impls b = impls a /\ dict b = dict a /\ ocls b = ocls a /\ cyc b = cyc a /\ inget b = inget a.
 
 Lemma frame_refl a : frame a a.
 Proof. repeat split. Qed.
@@ -59,12 +59,15 @@ Proof.
   - destruct v; apply frame_refl.
   - destruct (match alookup key2_eqb (cache st) (o, h) with Some VNone | None => None | Some v => Some v end) as [v|];
       [apply frame_refl|].
-    specialize (G st o (cls_of st o) h). destruct (gr st o (cls_of st o) h) as [st1 r]. cbn [fst] in *.
+    pose proof (G (set_inget st true) o (cls_of st o) h) as G'.
+    destruct (gr (set_inget st true) o (cls_of st o) h) as [st0 r]. cbn [fst] in *.
+    assert (F1 : frame st (set_inget st0 (inget st))).
+    { destruct G' as [A [B [C [D [E _]]]]]. unfold frame. cbn in *. repeat split; assumption. }
     destruct r as [v|e].
-    + destruct v; cbn [fst]; try exact G;
+    + destruct v; cbn [fst]; try exact F1;
         match goal with |- context [if ?b then _ else _] => destruct b end; cbn [fst];
-        try exact G; (eapply frame_trans; [exact G | apply frame_set_cache]).
-    + destruct e; exact G.
+        try exact F1; (eapply frame_trans; [exact F1 | apply frame_set_cache]).
+    + destruct e; exact F1.
 Qed.
 
 Lemma has_with_frame gr k st o h : gr_frame gr -> frame st (fst (has_with gr k st o h)).
@@ -104,12 +107,12 @@ Proof.
   intro G. unfold call. destruct (alookup Nat.eqb (impls st) i) as [im|]; [|apply frame_refl].
   set (st0 := push_trace (set_cyc st (i :: cyc st)) i).
   assert (F0 : stores st0 = stores st /\ impls st0 = impls st /\ dict st0 = dict st /\ ocls st0 = ocls st /\
-               cyc st0 = i :: cyc st) by (repeat split).
+               cyc st0 = i :: cyc st /\ inget st0 = inget st) by (repeat split).
   assert (K : forall st1 (r : outcome), frame st0 st1 ->
               frame st (fst (set_cyc st1 (after_call sem_fixed st1 i), r))).
-  { intros st1 r [A [B [C [D E]]]]. destruct F0 as [A0 [B0 [C0 [D0 E0]]]].
+  { intros st1 r [A [B [C [D [E I]]]]]. destruct F0 as [A0 [B0 [C0 [D0 [E0 I0]]]]].
     unfold after_call. cbn [restore_flag sem_fixed fst]. unfold frame. cbn.
-    rewrite A, B, C, D, E, A0, B0, C0, D0, E0, remove_first_head. repeat split. }
+    rewrite A, B, C, D, E, I, A0, B0, C0, D0, E0, I0, remove_first_head. repeat split. }
   destruct (i_body im) as [p|guarded post].
   - pose proof (exec_frame gr o p G (flagged st i) st0) as F.
     destruct (exec gr o p (flagged st i) st0) as [st1 r]. apply K. exact F.
@@ -144,25 +147,25 @@ Proof.
   - destruct (alookup Nat.eqb (impls st) i); cbn; assumption.
   - destruct (alookup Nat.eqb (impls st) i); cbn; assumption.
   - pose proof (read_frame fuel st o h) as F. destruct (read mro sem_fixed fuel st o h) as [st1 r].
-    cbn [fst] in *. destruct F as [_ [_ [_ [_ E]]]]. congruence.
+    cbn [fst] in *. destruct F as [_ [_ [_ [_ [E _]]]]]. congruence.
   - assert (G : forall ks st0, cyc st0 = [] -> cyc (fst (reeval_keys mro sem_fixed fuel st0 o ks)) = []).
     { induction ks as [|[o' h'] ks IH]; intros st0 H0; cbn [reeval_keys]; [assumption|].
       destruct (Nat.eqb o' o); [|apply IH; assumption].
       pose proof (get_result_frame fuel st0 o (cls_of st0 o) h') as F.
       destruct (get_result mro sem_fixed fuel st0 o (cls_of st0 o) h') as [st1 res]. cbn [fst] in F.
-      destruct F as [_ [_ [_ [_ E]]]]. destruct res; cbn [fst]; [apply IH; cbn; congruence | congruence]. }
+      destruct F as [_ [_ [_ [_ [E _]]]]]. destruct res; cbn [fst]; [apply IH; cbn; congruence | congruence]. }
     specialize (G (map fst (cache st)) st H). destruct (reeval_keys mro sem_fixed fuel st o (map fst (cache st))).
     cbn [fst] in *. assumption.
   - assert (G : forall hl st0, cyc st0 = [] -> cyc (fst (eval_roots mro sem_fixed fuel st0 o hl)) = []).
     { induction hl as [|h' hl IH]; intros st0 H0; cbn [eval_roots]; [assumption|].
       pose proof (get_result_frame fuel st0 o (cls_of st0 o) h') as F.
       destruct (get_result mro sem_fixed fuel st0 o (cls_of st0 o) h') as [st1 res]. cbn [fst] in F.
-      destruct F as [_ [_ [_ [_ E]]]]. destruct res as [v|e]; cbn [fst]; [|congruence].
+      destruct F as [_ [_ [_ [_ [E _]]]]]. destruct res as [v|e]; cbn [fst]; [|congruence].
       destruct v; cbn [fst]; try congruence; apply IH; cbn; congruence. }
     specialize (G hs st H). destruct (eval_roots mro sem_fixed fuel st o hs). cbn [fst] in *. assumption.
   - pose proof (has_with_frame (get_result mro sem_fixed fuel) k st o h (get_result_frame fuel)) as F.
     destruct (has_with (get_result mro sem_fixed fuel) k st o h) as [st1 r]. cbn [fst] in *.
-    destruct F as [_ [_ [_ [_ E]]]]. congruence.
+    destruct F as [_ [_ [_ [_ [E _]]]]]. congruence.
 Qed.
 
 Theorem run_flags fuel ops : forall st, cyc st = [] -> cyc (fst (run mro sem_fixed fuel st ops)) = [].
@@ -170,6 +173,41 @@ Proof.
   induction ops as [|o r IH]; intros st H; cbn [run]; [assumption|].
   pose proof (step_flags fuel st o H) as F. destruct (step mro sem_fixed fuel st o) as [st1 x]. cbn [fst] in F.
   specialize (IH st1 F). destruct (run mro sem_fixed fuel st1 r) as [st2 xs]. cbn [fst] in *. assumption.
+Qed.
+
+(* the mark "a read is computing further up the stack" is put back by every operation: every read issued from outside is an outermost read *)
+Theorem step_inget fuel st op : inget (fst (step mro sem_fixed fuel st op)) = inget st.
+Proof.
+  destruct op; cbn -[read get_result functions]; try reflexivity.
+  - destruct (alookup Nat.eqb (impls st) i); cbn; reflexivity.
+  - destruct (alookup Nat.eqb (impls st) i); cbn; reflexivity.
+  - pose proof (read_frame fuel st o h) as F. destruct (read mro sem_fixed fuel st o h) as [st1 r].
+    cbn [fst] in *. destruct F as [_ [_ [_ [_ [_ E]]]]]. exact E.
+  - assert (G : forall ks st0, inget (fst (reeval_keys mro sem_fixed fuel st0 o ks)) = inget st0).
+    { induction ks as [|[o' h'] ks IH]; intros st0; cbn [reeval_keys]; [reflexivity|].
+      destruct (Nat.eqb o' o); [|apply IH].
+      pose proof (get_result_frame fuel st0 o (cls_of st0 o) h') as F.
+      destruct (get_result mro sem_fixed fuel st0 o (cls_of st0 o) h') as [st1 res]. cbn [fst] in F.
+      destruct F as [_ [_ [_ [_ [_ E]]]]]. destruct res; cbn [fst]; [rewrite IH; cbn; exact E | exact E]. }
+    specialize (G (map fst (cache st)) st). destruct (reeval_keys mro sem_fixed fuel st o (map fst (cache st))).
+    cbn [fst] in *. assumption.
+  - assert (G : forall hl st0, inget (fst (eval_roots mro sem_fixed fuel st0 o hl)) = inget st0).
+    { induction hl as [|h' hl IH]; intros st0; cbn [eval_roots]; [reflexivity|].
+      pose proof (get_result_frame fuel st0 o (cls_of st0 o) h') as F.
+      destruct (get_result mro sem_fixed fuel st0 o (cls_of st0 o) h') as [st1 res]. cbn [fst] in F.
+      destruct F as [_ [_ [_ [_ [_ E]]]]]. destruct res as [v|e]; cbn [fst]; [|exact E].
+      destruct v; cbn [fst]; try exact E; rewrite IH; cbn; exact E. }
+    specialize (G hs st). destruct (eval_roots mro sem_fixed fuel st o hs). cbn [fst] in *. assumption.
+  - pose proof (has_with_frame (get_result mro sem_fixed fuel) k st o h (get_result_frame fuel)) as F.
+    destruct (has_with (get_result mro sem_fixed fuel) k st o h) as [st1 r]. cbn [fst] in *.
+    destruct F as [_ [_ [_ [_ [_ E]]]]]. exact E.
+Qed.
+
+Theorem run_inget fuel ops : forall st, inget (fst (run mro sem_fixed fuel st ops)) = inget st.
+Proof.
+  induction ops as [|o r IH]; intros st; cbn [run]; [reflexivity|].
+  pose proof (step_inget fuel st o) as F. destruct (step mro sem_fixed fuel st o) as [st1 x]. cbn [fst] in F.
+  specialize (IH st1). destruct (run mro sem_fixed fuel st1 r) as [st2 xs]. cbn [fst] in *. congruence.
 Qed.
 
 End Frames.
@@ -568,14 +606,16 @@ Theorem read_remembered gr st o h v :
   read_with gr st o h = (st, Val v).
 Proof. intros [E|E] C N; unfold read_with; rewrite E, C; destruct v; try reflexivity; congruence. Qed.
 
-(* outcome classification of a computed read (C07) *)
+(* outcome classification of a computed read (C07).  The computation runs with the mark "a read is on the stack" set; the mark is put back
+   afterwards; a RecursionError (fuel exhaustion) becomes AttributeError in the outermost read only *)
 Theorem read_computed gr st o h :
   (alookup key2_eqb (dict st) (o, h) = None \/ alookup key2_eqb (dict st) (o, h) = Some VNone) ->
   (alookup key2_eqb (cache st) (o, h) = None \/ alookup key2_eqb (cache st) (o, h) = Some VNone) ->
-  let '(st1, r) := gr st o (cls_of st o) h in
+  let '(st0, r) := gr (set_inget st true) o (cls_of st o) h in
+  let st1 := set_inget st0 (inget st) in
   read_with gr st o h =
     match r with
-    | Exn ERecursion => (st1, Exn EAttr)
+    | Exn ERecursion => (st1, Exn (if inget st then ERecursion else EAttr))
     | Exn e => (st1, Exn e)
     | Val VNone => (st1, Exn EAttr)
     | Val v => if nonfinite v then (st1, Exn EValue) else (set_cache st1 (aset key2_eqb (cache st1) (o, h) v), Val v)
@@ -586,36 +626,65 @@ Proof.
     by (destruct D as [E|E]; rewrite E; reflexivity).
   assert (C' : match alookup key2_eqb (cache st) (o, h) with Some VNone | None => None | Some v => Some v end = None)
     by (destruct C as [E|E]; rewrite E; reflexivity).
-  rewrite D', C'. destruct (gr st o (cls_of st o) h) as [st1 r]. reflexivity.
+  rewrite D', C'. destruct (gr (set_inget st true) o (cls_of st o) h) as [st0 r]. reflexivity.
 Qed.
 
-(* a read never ends in RecursionError, and a failing read does not add to what gr left remembered *)
-Theorem read_never_recursion_error gr st o h : snd (read_with gr st o h) <> Exn ERecursion.
+(* the outermost read never ends in RecursionError ... *)
+Theorem read_never_recursion_error gr st o h : inget st = false -> snd (read_with gr st o h) <> Exn ERecursion.
 Proof.
-  unfold read_with.
+  intro T. unfold read_with. rewrite T.
   destruct (match alookup key2_eqb (dict st) (o, h) with Some VNone | None => None | Some v => Some v end) as [v|].
   - destruct v; cbn; discriminate.
   - destruct (match alookup key2_eqb (cache st) (o, h) with Some VNone | None => None | Some v => Some v end) as [v|];
       [cbn; discriminate|].
-    destruct (gr st o (cls_of st o) h) as [st1 r]. destruct r as [v|e].
+    destruct (gr (set_inget st true) o (cls_of st o) h) as [st1 r]. destruct r as [v|e].
     + destruct v; cbn [snd fst nonfinite]; try discriminate;
         try (match goal with |- context [if ?b then _ else _] => destruct b end; cbn [snd fst]; discriminate).
     + destruct e; cbn; discriminate.
 Qed.
 
+(* ... while a read nested in another read's computation hands a runaway recursion on, unchanged and without remembering anything *)
+Theorem nested_read_passes_recursion_error gr st o h :
+  inget st = true ->
+  (alookup key2_eqb (dict st) (o, h) = None \/ alookup key2_eqb (dict st) (o, h) = Some VNone) ->
+  (alookup key2_eqb (cache st) (o, h) = None \/ alookup key2_eqb (cache st) (o, h) = Some VNone) ->
+  snd (gr (set_inget st true) o (cls_of st o) h) = Exn ERecursion ->
+  snd (read_with gr st o h) = Exn ERecursion /\
+  cache (fst (read_with gr st o h)) = cache (fst (gr (set_inget st true) o (cls_of st o) h)).
+Proof.
+  intros T D C R. pose proof (read_computed gr st o h D C) as K.
+  destruct (gr (set_inget st true) o (cls_of st o) h) as [st0 r]. cbn [snd fst] in *. subst r. rewrite K, T. split; reflexivity.
+Qed.
+
 Theorem failed_read_remembers_nothing gr st o h e :
   snd (read_with gr st o h) = Exn e ->
-  cache (fst (read_with gr st o h)) = cache (fst (gr st o (cls_of st o) h)) \/ fst (read_with gr st o h) = st.
+  cache (fst (read_with gr st o h)) = cache (fst (gr (set_inget st true) o (cls_of st o) h)) \/ fst (read_with gr st o h) = st.
 Proof.
   unfold read_with.
   destruct (match alookup key2_eqb (dict st) (o, h) with Some VNone | None => None | Some v => Some v end) as [v|].
   - destruct v; cbn; intro; right; reflexivity.
   - destruct (match alookup key2_eqb (cache st) (o, h) with Some VNone | None => None | Some v => Some v end) as [v|];
       [cbn; intro; right; reflexivity|].
-    destruct (gr st o (cls_of st o) h) as [st1 r]. destruct r as [v|e0].
+    destruct (gr (set_inget st true) o (cls_of st o) h) as [st1 r]. destruct r as [v|e0].
     + destruct v; cbn [snd fst nonfinite]; try (intro; left; reflexivity); try discriminate;
         try (match goal with |- context [if ?b then _ else _] => destruct b end; cbn [snd fst]; intro X; try discriminate; left; reflexivity).
     + destruct e0; cbn; intro; left; reflexivity.
+Qed.
+
+(* no construct of an implementation can handle a runaway recursion of one of its sub-evaluations: try/except AttributeError, has_value,
+   sequencing and arithmetic all hand it on *)
+Theorem recursion_error_not_catchable gr o cy st a b r h' :
+  (snd (exec gr o a cy st) = Exn ERecursion -> snd (exec gr o (PTry a b) cy st) = Exn ERecursion) /\
+  (snd (exec gr o a cy st) = Exn ERecursion -> snd (exec gr o (PSeq a b) cy st) = Exn ERecursion) /\
+  (snd (exec gr o a cy st) = Exn ERecursion -> snd (exec gr o (PAdd a b) cy st) = Exn ERecursion) /\
+  (snd (read_with gr st (the_obj o r) h') = Exn ERecursion ->
+   snd (exec gr o (PIfHas HasValue r h' a b) cy st) = Exn ERecursion).
+Proof.
+  repeat split; cbn [exec]; intro H.
+  - destruct (exec gr o a cy st) as [st1 ra]. cbn [snd] in H. subst ra. reflexivity.
+  - destruct (exec gr o a cy st) as [st1 ra]. cbn [snd] in H. subst ra. reflexivity.
+  - destruct (exec gr o a cy st) as [st1 ra]. cbn [snd] in H. subst ra. reflexivity.
+  - unfold has_with. destruct (read_with gr st (the_obj o r) h') as [st1 t]. cbn [snd] in H. subst t. reflexivity.
 Qed.
 
 Theorem read_falsy gr st o h :
